@@ -27,6 +27,15 @@ pub trait Handler: Send + Sync {
         let _ = (name, detail);
         None
     }
+
+    /// Called by `SharedHistory::update` after the new snapshot was built.
+    ///
+    /// Returning some snapshot makes the update use it in place of the one
+    /// derived from the validation report. This allows driving the real
+    /// update logic with arbitrary data sets.
+    fn override_snapshot(&self) -> Option<crate::payload::PayloadSnapshot> {
+        None
+    }
 }
 
 static HANDLER: RwLock<Option<Arc<dyn Handler>>> = RwLock::new(None);
@@ -54,4 +63,9 @@ pub fn fault<D: AsRef<str>>(
     name: &str, detail: impl FnOnce() -> D
 ) -> Option<u32> {
     handler().and_then(|handler| handler.fault(name, detail().as_ref()))
+}
+
+/// Asks for a replacement of the snapshot about to be installed.
+pub fn override_snapshot() -> Option<crate::payload::PayloadSnapshot> {
+    handler().and_then(|handler| handler.override_snapshot())
 }
